@@ -250,7 +250,6 @@ func (setup *SetupServerController) handleKeyExchange(in util.Container) (util.C
 			log.Debug.Println("<-     Signature:", hex.EncodeToString(tlvPairKeyExchange.GetBytes(TagSignature)))
 
 			encrypted, mac, _ := chacha20poly1305.EncryptAndSeal(setup.session.EncryptionKey[:], []byte("PS-Msg06"), tlvPairKeyExchange.BytesBuffer().Bytes(), nil)
-			out.SetByte(TagSequence, PairStepKeyExchangeRequest.Byte())
 			out.SetBytes(TagEncryptedData, append(encrypted, mac[:]...))
 		}
 	}
